@@ -508,6 +508,7 @@ fn oeffs(effs: Vec<Eff>, held: &mut Vec<Held>) -> String {
 fn oevs(evs: &[Ev]) -> String { coq_list(evs.iter().map(|e| format!("mkEv {} {} [{}]", e.tag, e.val, e.maps.iter().map(|m| m.to_string()).collect::<Vec<_>>().join("; "))).collect()) }
 fn rcode(r: Result<(), crux_core::ResolveError>) -> u64 { match r { Ok(()) => 0, Err(crux_core::ResolveError::Never) => 1, Err(crux_core::ResolveError::FinishedMany) => 2 } }
 
+static OUT_SEQ: std::sync::atomic::AtomicU64 = std::sync::atomic::AtomicU64::new(0);
 fn pick_action(rng: &mut Rng, held: &[Held], names: &[u64], core: bool, ev_tags: &[u64]) -> Action {
     let live: Vec<usize> = held.iter().enumerate().filter(|(_, h)| h.req.is_some()).map(|(i, _)| i).collect();
     let r = rng.below(100);
@@ -516,7 +517,10 @@ fn pick_action(rng: &mut Rng, held: &[Held], names: &[u64], core: bool, ev_tags:
     if r < 75 && !held.is_empty() {
         // mostly live requests; sometimes an already used / dropped one (late or repeated resolution)
         let i = if !live.is_empty() && rng.coin(5, 6) { *rng.pick(&live) } else { rng.below(held.len() as u64) as usize };
-        return Action::Resolve(held[i].tag, held[i].val, occ_of(held, i), rng.below(50));
+        // every value the shell delivers is unique within the run and far from every constant of the programs (and from the
+        // +1..+9 that maps add): where a delivered value shows up later tells which request's continuation ran (C06_causal)
+        let out = if rng.coin(1, 8) { rng.below(50) } else { 1000 + 10 * (OUT_SEQ.fetch_add(1, std::sync::atomic::Ordering::Relaxed) % 200) };
+        return Action::Resolve(held[i].tag, held[i].val, occ_of(held, i), out);
     }
     if r < 88 && !held.is_empty() {
         let i = if !live.is_empty() && rng.coin(5, 6) { *rng.pick(&live) } else { rng.below(held.len() as u64) as usize };
